@@ -160,7 +160,7 @@ class ProcessTasks(Filter[Iterable[Task], Iterable[Any]]):
                         #on side-effect behavior to update env.params
                         try:
                             peek_first(env.read())
-                        except:
+                        except Exception: #not a bare except: a Ctrl-C here has to stop the experiment like anywhere else
                             pass
 
                     with CobaContext.logger.time(f"Recording Environment {env_id} parameters..."):
